@@ -14,7 +14,9 @@ EXPLANATION = (
     "collocation system at the fine Greville points; (R05.3) HSplineFunc.eval / grid_eval / grid_jacobian / grid_hessian all sum "
     "the same route over coeffs_to_levelwise_funcs with the truncate flag forwarded unchanged, and the THB->HB transform is "
     "applied exactly once; (R05.4) virtual-hierarchy prolongators: identity block for kept dofs, restricted Kronecker rows for "
-    "the refined ones, inverse truncation applied per level for THB.")
+    "the refined ones, inverse truncation applied per level for THB; in represent_fine the rows zeroed by truncation and the "
+    "column block selected per level come from the same per-level index lists (origin + element stores compared) and address "
+    "levels k+1 resp. k.")
 DOES_NOT_DECIDE = ("that any prolongation matrix represents the identical function (the THB virtual-hierarchy and finite-disparity "
                    "prolongate_to defects quoted in the property are value-level and out of reach of these rules); pruning threshold effects")
 TECHNIQUE = "custom AST rules: affine range tiling, sibling comparison of constructions, option forwarding"
